@@ -23,7 +23,7 @@ ASSUMPTIONS = [
   "interpreter's visible text at the interval's begin, as lines (vt/cuecheck.py); output parsed by the strict parsers of vt/cueparse.py",
   "paragraphs containing xml:space=preserve text are compared by their non-white-space characters only (labelled class)",
   "ruby annotation (rt, rtc) and delimiter (rp) text is excluded, ruby base text included, as the statement says",
-  "cues and payload lines that hold no visible character (only tags and/or white space) are ignored on both sides: they carry no text",
+  "payload lines that hold no visible character (only tags and/or white space) inside a cue that also holds text are ignored on both sides; a cue without any non-blank character is a failure (blank-cue)",
   "part subms: an interval whose begin and end round to the same millisecond has no cue (begin < end is required by both formats, "
   "C07); a shorter-than-a-millisecond interval that crosses a rounding boundary must be written as a 1 ms cue; cases where an end point "
   "sits exactly on a half millisecond and one rounding would empty the cue are skipped (labelled ambiguous-rounding)",
@@ -41,6 +41,8 @@ SUBMS = gen_model.profile(**dict(TEXT, arbitrary_times=True, max_nodes=14, time_
 MARKUP = gen_model.profile(**dict(TEXT, text_markup=True, max_nodes=16, ruby=False, time_shifts=None))
 # text with characters outside ASCII, among them the ones Unicode calls line boundaries (U+2028, U+0085 ...) but TTML / SubRip / WebVTT do not
 UNICODE = gen_model.profile(**dict(TEXT, text_unicode=True, max_nodes=16, time_shifts=None))
+# preserved text holding carriage returns (e.g. read from &#13; in TTML): CR is a line terminator for SRT / WebVTT readers
+CR = gen_model.profile(**dict(TEXT, preserve=True, xml_safe=False, max_nodes=16, time_shifts=None))
 SHRINK = gen_model.case_simplifications("spec")
 
 SRT_CFGS = {"srt": None, "srt-noformat": SRTWriterConfiguration(text_formatting=False)}
@@ -153,6 +155,8 @@ def check(case, res):
     res.label("text-with-markup-characters")
   if any(not c.exact for c in exp):
     res.label("preserve-text-visible")
+  if any("cr" in ch.leaf[2] for c in exp for l in c.lines for ch in l[:1]):
+    res.label("carriage-return-in-visible-preserved-text")
   try:
     out = run_writer(doc, cfg)
   except Exception as e:  # pylint: disable=broad-except
@@ -180,6 +184,7 @@ PARTS = {
   "markup": Part("markup", check, strategy=cases(MARKUP, cfgs=VTT_NAMES), n=(320, 16000), shrinker=SHRINK,
                  required_labels=("text-with-markup-characters",)),
   "unicode": Part("unicode", check, strategy=cases(UNICODE), n=(240, 12000), shrinker=SHRINK),
+  "cr": Part("cr", check, strategy=cases(CR), n=(240, 12000), shrinker=SHRINK, required_labels=("carriage-return-in-visible-preserved-text",)),
   "subms": Part("subms", check, strategy=cases(SUBMS, True), n=(480, 24000), shrinker=SHRINK,
                 required_labels=("sub-millisecond-interval-without-cue-among-others", "sub-millisecond-interval-crossing-a-millisecond")),
 }
